@@ -30,9 +30,9 @@ CHECKS['C04'] = dict(
     note='lxml parsing is external (the harness parses with its own options); interface traversal order (depth-first, declaration order) is model code exercised by the correspondence, not a separate theorem; <Default> values are modelled only as accepted/refused.',
     design='§5 C04')
 CHECKS['C05'] = dict(
-    technique='Lean 4 invariant/frame theorems over the world model (step_frame, step_wf, play_wf, entityProperty_lww, player_id_base) + differential play of generated histories in 4 dialects (world compared after every packet) + recordings through the model as independent decoder',
+    technique='Lean 4 invariant/frame theorems over the world model (step_frame, step_wf, play_wf, entityProperty_lww, property_history_lww over whole histories, player_id_base) + differential play of generated histories in 4 dialects (world compared after every packet) + recordings through the model as independent decoder',
     text='C05 theorems: every packet changes at most the entity it addresses (all dialects, all packets, failing or not); the id-table invariant holds in every reachable world; a property update stores exactly the decoded value under that name (dict laws give last-writer-wins per property); the base-player id is reported. The world model is tied to the real players by generated histories (model vs implementation after each packet, and against a plain dict LWW interpreter) and by the final worlds of real recordings.',
-    note='the LWW statement over whole histories is the composition of the per-step theorems and the dict/table laws (not one closed theorem); correspondence is sampled; recording controller via the documented _get_controller/_get_definitions extension points.',
+    note='property_history_lww covers histories in which the entity itself receives only property updates (others arbitrary); creation / nested updates in the same history compose through the per-step theorems; correspondence is sampled; recording controller via the documented _get_controller/_get_definitions extension points.',
     design='§5 C05')
 CHECKS['C06'] = dict(
     technique='Lean 4 theorems: Python slice-assignment semantics, leaf operations and descent steps as List.set / dict assignment, frame lemmas + differential play of generated nested-operation sequences against plain list/dict operations',
@@ -40,7 +40,7 @@ CHECKS['C06'] = dict(
     note='partial: the closed-form bit-level encoder/decoder round trip for whole paths is not a theorem (each field read is covered by C17.get_pending); the payload-length fix (32-bit) is part of the modelled code.',
     design='§5 C06')
 CHECKS['C08'] = dict(
-    technique='Lean 4 theorems position_spec / player_position_{set,copy,unknown_ignored,zero} / pose_frame + differential play of generated position histories + recordings',
+    technique='Lean 4 theorems position_spec / player_position_{set,copy,unknown_ignored,zero} / pose_frame / entity_history (updates and positions over whole histories) + differential play of generated position histories + recordings',
     text='C08 theorems state outright what Position and the three PlayerPosition cases do to the addressed entity and that no other entity changes; defaults before the first packet. Tied to the real players by generated interleavings (ids equal/unequal/zero/unknown, arbitrary float bit patterns) compared after each packet and against a dict id -> last pose.',
     note='floats are bit patterns (NaNs compared as a class); aliasing of Vector3 objects between entities cannot exist in the model and would surface as a disagreement.',
     design='§5 C08')
